@@ -1,0 +1,30 @@
+//go:build verif
+
+package s2
+
+// Exported wrappers of the unexported cell-id coordinate functions, used by
+// the model-based verification harness (property C01).  Compiled only with
+// the "verif" build tag; adds no behaviour to the package.
+
+// VerifFaceIJOrientation exposes CellID.faceIJOrientation.
+func VerifFaceIJOrientation(ci CellID) (f, i, j, orientation int) { return ci.faceIJOrientation() }
+
+// VerifCellIDFromFaceIJ exposes cellIDFromFaceIJ.
+func VerifCellIDFromFaceIJ(f, i, j int) CellID { return cellIDFromFaceIJ(f, i, j) }
+
+// VerifCellIDFromFaceIJWrap exposes cellIDFromFaceIJWrap.
+func VerifCellIDFromFaceIJWrap(f, i, j int) CellID { return cellIDFromFaceIJWrap(f, i, j) }
+
+// VerifCellIDFromFaceIJSame exposes cellIDFromFaceIJSame.
+func VerifCellIDFromFaceIJSame(f, i, j int, sameFace bool) CellID {
+	return cellIDFromFaceIJSame(f, i, j, sameFace)
+}
+
+// VerifImmediateParent exposes CellID.immediateParent.
+func VerifImmediateParent(ci CellID) CellID { return ci.immediateParent() }
+
+// VerifCenterFaceSiTi exposes CellID.centerFaceSiTi.
+func VerifCenterFaceSiTi(ci CellID) (face, si, ti int) { return ci.centerFaceSiTi() }
+
+// VerifCellIDFromPoint exposes cellIDFromPoint.
+func VerifCellIDFromPoint(p Point) CellID { return cellIDFromPoint(p) }
